@@ -5,6 +5,7 @@ from plasTeX.Packages import report
 def ProcessOptions(options, document): # type: ignore
     report.ProcessOptions(options, document)
     document.context['thesection'].format = '${section}'
+    document.context['theequation'].format = '${equation}'
     document.context['theindex'].counter = 'section'
     document.context['theindex'].level = Environment.SECTION_LEVEL
     document.context['printindex'].counter = 'section'
